@@ -354,7 +354,7 @@ def generate(rng, tier, stats):
             stats["literal"] += 1
             yield op_line("L%d" % k, cap, addr, tags, b"", args)
     # exhaustive small type strings
-    reps = 1 if quick else 12
+    reps = 2 if quick else 12
     for tags in all_tag_strings(3):
         for _ in range(reps):
             stats["exhaustive_len3"] += 1
@@ -364,15 +364,15 @@ def generate(rng, tier, stats):
         for _ in range(2 if quick else 20):
             yield make_case(rng, stats, rand_tags(rng, 0, 6), addr=rand_addr(rng, n))
     # random longer type strings
-    for _ in range(5000 if quick else 400000):
+    for _ in range(12000 if quick else 400000):
         yield make_case(rng, stats, rand_tags(rng, 0, 40) if rng.random() < 0.5 else rand_tags(rng, 0, 8))
     # type strings with bytes that are not tags (default branches of every switch); A and V only
-    for _ in range(300 if quick else 20000):
+    for _ in range(600 if quick else 20000):
         tags = bytes(rng.choice(b"ifsbTx.Z0a") for _ in range(rng.randint(1, 8)))
         stats["junk_tags"] += 1
         yield make_case(rng, stats, tags, mode=rng.choice("AV"))
     # raw stream for rtosc_message_length (never starts a bundle)
-    for _ in range(3000 if quick else 300000):
+    for _ in range(6000 if quick else 300000):
         stats["raw"] += 1
         r = rng.random()
         if r < 0.6:
